@@ -5,7 +5,7 @@ p=${2:-$(python3 -c "import json;print(json.load(open('$d/meta.json'))['property
 cd /repo || exit 2
 if ! git diff --quiet; then echo "/repo has local changes"; exit 2; fi
 git apply $d/patch.diff || { echo "patch does not apply"; exit 2; }
-cd /verif && ./check $p > /tmp/seed_run.out 2>&1; rc=$?
+cd /verif && bin/jv check --property $p --no-evidence > /tmp/seed_run.out 2>&1; rc=$?
 cd /repo && git checkout -- . 
 echo "$1 property=$p exit=$rc $(grep -c '^VIOLATION' /tmp/seed_run.out) violations: $(grep -o 'obligation=[^ ]*' /tmp/seed_run.out | sed 's/obligation=//' | sort -u | head -4 | tr '\n' ' ')"
 exit 0
